@@ -9,7 +9,7 @@ Tr == ndJsonDeserialize("impl.ndjson")
 VARIABLES l, rej
 tvars == <<vars, l, rej>>
 
-MNote(n) == [k |-> n.k, t |-> n.t, safe |-> n.safe, unsafe |-> n.unsafe, canc |-> n.canc, proof |-> n.proof, depth |-> n.depth]
+MNote(n) == [k |-> n.k, t |-> n.t, safe |-> n.safe, unsafe |-> n.unsafe, canc |-> n.canc, proof |-> n.proof, depth |-> n.depth, pv |-> n.pv]
 LDl(i) == [j \in 1..Len(Tr[i].st.dl) |-> MNote(Tr[i].st.dl[j])]
 OutSeq == CHOOSE s \in [1..Cardinality(Outs) -> Outs] : \A a, b \in 1..Cardinality(Outs) : a < b => s[a] < s[b]
 BagOfSeq(s) == [x \in Range(s) |-> Cardinality({i \in 1..Len(s) : s[i] = x})]
@@ -20,7 +20,7 @@ Same(i) == LET s == Tr[i].st IN
   /\ un' = [t \in Tx |-> s.un[t]]
   /\ st' = [t \in Tx |-> s.st[t]]
   /\ q' = s.q /\ c'.pc = s.c.pc /\ c'.t = s.c.t
-  /\ nblk' = s.nblk /\ clock' = s.clock
+  /\ nblk' = s.nblk /\ clock' = s.clock /\ ready' = s.ready /\ orphd' = s.orphd
 
 Step(e) == CASE e.a = "Arrive"   -> Arrive(e.t, e.s)
              [] e.a = "Inv"      -> Inv(e.t, e.s)
@@ -30,6 +30,7 @@ Step(e) == CASE e.a = "Arrive"   -> Arrive(e.t, e.s)
              [] e.a = "Block"    -> Block /\ act'.t = e.t
              [] e.a = "Checker"  -> Checker
              [] e.a = "Restart"  -> Restart
+             [] e.a = "Reorg"    -> Reorg /\ act'.t = e.t
              [] OTHER            -> FALSE
 
 IsStutter(i) == Tr[i].skip # "" \/ Tr[i].act.a = "final"
@@ -44,7 +45,7 @@ Match == /\ l < Len(Tr) /\ Tr[l+1].act.a # "init"
 TStart(i) == /\ mp' = [t \in Tx |-> NoMp] /\ idx' = [o \in Outs |-> <<>>] /\ un' = [t \in Tx |-> NoUn]
              /\ st' = [t \in Tx |-> NoSt] /\ q' = <<>> /\ c' = IdleC /\ nblk' = 0
              /\ clock' = 0 /\ dl' = <<>> /\ arr' = 0 /\ restarts' = 0 /\ checks' = 0 /\ aborted' = FALSE /\ act' = A("init", 0, "")
-             /\ l' = i
+             /\ ready' = TRUE /\ orphd' = <<>> /\ l' = i
 Begin == l < Len(Tr) /\ Tr[l+1].act.a = "init" /\ TStart(l+1) /\ UNCHANGED rej
 NextInit(i) == IF \E j \in i..Len(Tr) : Tr[j].act.a = "init"
                THEN CHOOSE j \in i..Len(Tr) : Tr[j].act.a = "init" /\ \A k \in i..(j-1) : Tr[k].act.a # "init"
